@@ -410,11 +410,48 @@ def run(ctx):
     d4_chunk(ctx)
     d5_header(ctx)
     d6_keepalive(ctx)
+    d6_eof_is_real(ctx)
     d7_who_reads(ctx)
     ck.rule('C08-D8', 'content coding removal is independent of the segmentation and truncation is detectable: the decoder rules of C19 (format decision on a prefix every first piece contains, decode exactly the content bytes, flush on every framing, zlib errors become protocol errors, eof consulted)')
     from . import c19
     from .common import RemapCtx
     c19.run(RemapCtx(ctx, {'C19-D1': 'C08-D8', 'C19-D2': 'C08-D8', 'C19-D3': 'C08-D8', 'C19-D4': 'C08-D8'}))
+
+
+def d6_eof_is_real(ctx):
+    """The until-close reader, and the short-read tests of the other two, take an empty read for the end of the stream.  That is
+    sound only if the connection layer returns what the transport returned: every value returned by a read / readline method
+    of the connection classes is, on every path, the result of the network operation (or of the same method of the base
+    class).  A path that makes up an empty read out of a reset or a time-out turns a body cut short into a complete one."""
+    repo, ck = ctx.repo, ctx.check
+    mod = repo.module('wpull.network.connection')
+    n = 0
+    for ci in [c for c in repo.classes.values() if c.module is mod]:
+        for name in ('read', 'readline'):
+            m = ci.methods.get(name)
+            if m is None:
+                continue
+            n += 1
+            defs = U.local_defs(m.node)
+
+            def genuine(e, depth=0):
+                if isinstance(e, ast.YieldFrom) or isinstance(e, ast.Await):
+                    e = e.value
+                if isinstance(e, ast.Call):
+                    t = norm_text(e.func)
+                    return t.endswith('run_network_operation') or t in ('super().read', 'super().readline') \
+                        or t.endswith(('reader.read', 'reader.readline'))
+                if isinstance(e, ast.Name) and depth < 4:
+                    ds = defs.get(e.id, [])
+                    return bool(ds) and all(v is not None and k == 'assign' and genuine(v, depth + 1) for v, k, s_ in ds)
+                return False
+            rets = [r for r in walk_no_nested(m.node) if isinstance(r, ast.Return)]
+            bad = [r for r in rets if r.value is None or not genuine(r.value)]
+            ck.expect(bool(rets) and not bad, 'C08-D6', m.qual, 'returns the result of the network read on every path',
+                      'a path returns something other than what the transport delivered (%s): an error turned into an empty read is taken for '
+                      'the end of the body by the until-close reader' % (norm_text(bad[0])[:60] if bad else 'no return'), m.loc(bad[0]) if bad else m.loc())
+    if n < 2:
+        raise AnalysisError('connection classes: read/readline not found')
 
 
 # =============================================================================== D1
